@@ -429,12 +429,21 @@ def _decompressed_items(ctx, res):
         docs = {"single.txt.gz": (gzip.compress(parts[0], mtime=0), parts[0]),
                 "multi.txt.gz": (b"".join(gzip.compress(p_, mtime=0) for p_ in parts), b"".join(parts)),
                 "logs/year.txt.gz": (gzip.compress(parts[1], mtime=0) + gzip.compress(parts[2], mtime=0), parts[1] + parts[2])}
+        # ... and documents the template handler generates: the template is long, its expansion short (and the other way round)
+        docs["site/status.html.tal"] = (("<html><body><!-- " + "a long comment the expansion keeps, " * 60 + "-->"
+                                         "<p tal:condition=\"nothing\">" + "never shown " * 150 + "</p><b tal:content=\"selector\">s</b></body></html>\n").encode(), None)
+        docs["site/grow.html.tal"] = (b"<html><body><ul><li tal:repeat=\"x python:range(400)\" tal:content=\"string:item number ${x}\">i</li></ul></body></html>\n", None)
         for n, (z, _plain) in docs.items():
             tree.write(n, z)
         cfg = pyg.make_config(tree.root, pyg.FULL_HANDLERS, **{"handlers.dir.DirHandler|cachetime": "0",
                                                                "handlers.file.CompressedFileHandler|decompressors": "{'gzip': 'zcat'}"})
         for n, (_z, plain) in docs.items():
             sel = "/" + n
+            if plain is None:
+                plain = pyg.request(reqs.build("gopher", sel), cfg).out or b""       # what the plain request delivers
+                if len(plain) < 100 or b"tal:" in plain:
+                    res.count("tal-document-not-expanded")
+                    continue
             for mark in ("+", "$"):
                 wpath = os.path.join(tree.tmp, "w.out")
                 with open(wpath, "wb", buffering=0) as wf:
